@@ -50,6 +50,7 @@ structure FieldIn where
   metric : Nat := 0      -- 0 = l2_norm, 1 = dot_product, 2 = cosine
   opt : Nat := 0         -- 0 recall, 1 latency, 2 memory-efficient
   vec : List Int := []
+  shape : Option Bytes := none   -- geo-shape fields: `EncodedShape()`; `none` = not a geo-shape field
   deriving Repr, DecidableEq, Inhabited
 
 structure DocIn where
